@@ -154,6 +154,10 @@ func (fh *fshandler) getFileRecord(fid types.Uid) (*types.FileDef, error) {
 	if fd == nil {
 		return nil, types.ErrNotFound
 	}
+	if fd.Status != types.UploadCompleted {
+		// Still being uploaded, or the upload has failed: there is nothing to serve.
+		return nil, types.ErrNotFound
+	}
 	return fd, nil
 }
 
